@@ -631,6 +631,9 @@ func propC11Update(c c11Case) (ev.Outcome, error) {
 }
 
 func runC11(t *testing.T, driver string) {
+	if leg := ev.ReplayLeg(); ev.Replaying() && leg != "" && leg != t.Name() {
+		t.Skipf("replay file is for leg %s", leg)
+	}
 	col := ev.Get("C11")
 	ev.Check(t, col, ev.Scale(400, 3000), genC11(driver, col), propC11)
 }
